@@ -2,9 +2,14 @@
    HalmosBitVec: constructor, every arithmetic / comparison / bitwise / shift / byte /
    signextend method with each fast path) and the dispatch layer of src/halmos/sevm.py
    (pop/popi/top/topi, bitwise(), SEVM.arith and its abstraction choice, sym_byte_of, the
-   opcode arms of SEVM.run).  The model follows the Python branch by branch, INCLUDING its
-   defects.  The literal guards / constants come from Gen/GenBitvecGuards.v, regenerated from
-   bitvec.py on every run.  No proofs here.
+   opcode arms of SEVM.run).  The dispatch layer is an INTERPRETER (exec_arm) of the arm bodies
+   regenerated from sevm.py into Gen/GenWordOps.v (syntax: Model/WordOpsIR.v): which accessor
+   fetches each operand, in which order, which method of which receiver is called with which
+   abstraction functions, set_top or push - all of that is read from the source on every run.  The model follows the Python branch by branch, INCLUDING its
+   defects.  The literal guards / constants (g_.., e_..) and the concrete-path return expressions
+   (r_.. value, rd_.. divisors, rw_.. work) come from Gen/GenBitvecGuards.v, regenerated from
+   bitvec.py on every run; their parameters are the free names of the source expression in
+   alphabetical order.  No proofs here.
 
    z3 side: [term]/[bterm] is the fragment of z3 terms halmos builds; [eval]/[beval] give
    them their SMT-LIB meaning (Base/SmtBV.v) and interpret the f_evm_* uninterpreted
@@ -13,12 +18,11 @@
    term over two constants into a constant (sdiv, smod, ashr, signextend on concrete
    operands) the folded value is the SmtBV function applied to the constants. *)
 From Coq Require Import ZArith List Bool.
-From HV Require Import Base.Word Base.SmtBV Gen.GenBitvecGuards.
+From HV Require Import Base.Word Base.SmtBV Model.PyInt Model.WordOpsIR Gen.GenBitvecGuards Gen.GenWordOps.
 Import ListNotations.
 Open Scope Z_scope.
 
 (* ------------------------------------------------------------------ z3 terms *)
-Inductive uf := Fmul | Fudiv | Furem | Fsdiv | Fsrem | Fexp.
 Inductive binop := Add | Sub | Mul | Udiv | Urem | Sdiv | Srem | Shl | Lshr | Ashr | And | Or | Xor.
 Inductive cmpop := Ult | Ule | Ugt | Uge | Slt | Sgt.
 
@@ -105,7 +109,8 @@ End Eval.
 Inductive bv := Cv (v : Z) | Sv (t : term).       (* HalmosBitVec payload: int | BitVecRef *)
 Inductive bl := BC (b : bool) | BS (c : bterm).   (* HalmosBool: TRUE/FALSE | BoolRef *)
 Inductive val := VBV (x : bv) | VBool (b : bl).   (* a stack word (HalmosBitVec of size 256 | HalmosBool) *)
-Inductive err := ENotConcrete | EZeroDivision | ETypeError | ENotImplemented.
+Inductive err := ENotConcrete | EZeroDivision | ETypeError | ENotImplemented
+               | EStackUnderflow | EAttribute | EValue | EStackDepth.
 Inductive res (A : Type) := Ok (a : A) | Err (e : err).
 Arguments Ok {A} a.
 Arguments Err {A} e.
@@ -117,14 +122,16 @@ Definition denote ev eb (v : val) : Z :=
 
 (* ------------------------------------------------------------------ Python int primitives *)
 Definition py_mask (n v : Z) : Z := Z.land v (Z.ones n).          (* v & ((1 << n) - 1) *)
-(* v >> s on non-negative ints; CPython returns 0 without iterating when s exceeds the length *)
-Definition py_shr (v s : Z) : Z := if Z.log2 v <? s then 0 else Z.shiftr v s.
 Definition bit_length (v : Z) : Z := if v =? 0 then 0 else Z.log2 v + 1.
 (* v.to_bytes(len, "big")[idx] *)
 Definition py_byte_at (len v idx : Z) : Z := (v / 2 ^ (8 * (len - 1 - idx))) mod 256.
 
 (* HalmosBitVec(<int>, size=n) *)
 Definition mk_int (n v : Z) : bv := Cv (py_mask n v).
+(* HalmosBitVec(<int expression with // or %>, size=n): Python raises ZeroDivisionError when a
+   divisor is 0 *)
+Definition py_arith (n : Z) (divisors : list Z) (v : Z) : res bv :=
+  if existsb (Z.eqb 0) divisors then Err EZeroDivision else Ok (mk_int n v).
 (* what z3 makes of a python int / BitVecRef operand of an overloaded operator *)
 Definition z3_of (n : Z) (a : bv) : term := match a with Cv v => TConst n v | Sv t => t end.
 Definition bl_z3 (a : bl) : bterm := match a with BC b => BConst b | BS c => c end.
@@ -185,16 +192,16 @@ Definition bl_as_bv (n : Z) (a : bl) : bv :=
 
 (* ------------------------------------------------------------------ HalmosBitVec methods *)
 Definition bv_is_zero (n : Z) (a : bv) : bl :=
-  match a with Cv x => BC (x =? 0) | Sv t => BS (BEq t (TConst n 0)) end.
+  match a with Cv x => BC (g_is_zero_1 x) | Sv t => BS (BEq t (TConst n 0)) end.
 
 Definition bv_add (n : Z) (a b : bv) : bv :=
   match a, b with
-  | Cv x, Cv y => mk_int n (x + y)
+  | Cv x, Cv y => mk_int n (r_add_1 y x)
   | _, _ => Sv (TBin Add n (z3_of n a) (z3_of n b))
   end.
 Definition bv_sub (n : Z) (a b : bv) : bv :=
   match a, b with
-  | Cv x, Cv y => mk_int n (x - y)
+  | Cv x, Cv y => mk_int n (r_sub_1 y x)
   | _, _ => Sv (TBin Sub n (z3_of n a) (z3_of n b))
   end.
 
@@ -204,7 +211,7 @@ Definition bv_lshl (n : Z) (a s : bv) : bv :=
       if g_lshl_1 k then a
       else if g_lshl_2 k n then mk_int n 0
       else match a with
-           | Cv x => mk_int n (Z.shiftl x k)
+           | Cv x => mk_int n (r_lshl_1 x k)
            | Sv t => Sv (TBin Shl n t (TConst n k))
            end
   | Sv st => Sv (TBin Shl n (z3_of n a) st)
@@ -215,7 +222,7 @@ Definition bv_lshr (n : Z) (a s : bv) : bv :=
   | Cv k =>
       if g_lshr_1 k then a
       else match a with
-           | Cv x => mk_int n (py_shr x k)
+           | Cv x => mk_int n (r_lshr_1 x k)
            | Sv t => if g_lshr_2 k n then mk_int n 0 else Sv (TBin Lshr n t (TConst n k))
            end
   | Sv st => Sv (TBin Lshr n (z3_of n a) st)
@@ -233,9 +240,10 @@ Definition bv_ashr (n : Z) (a s : bv) : bv :=
   | Sv st => Sv (TBin Ashr n (z3_of n a) st)
   end.
 
-Definition bv_mul (n : Z) (abs : bool) (a b : bv) : bv :=
+(* abstraction=<FuncDeclRef> | None: the z3 function the caller passes is the one applied *)
+Definition bv_mul (n : Z) (abs : option uf) (a b : bv) : bv :=
   match a, b with
-  | Cv x, Cv y => mk_int n (x * y)
+  | Cv x, Cv y => mk_int n (r_mul_1 x y)
   | Cv x, Sv t =>
       if g_mul_1 x then a
       else if g_mul_2 x then b
@@ -246,26 +254,31 @@ Definition bv_mul (n : Z) (abs : bool) (a b : bv) : bv :=
       else if g_mul_4 y then a
       else if is_power_of_two y then bv_lshl n a (mk_int n (bit_length y - 1))
       else Sv (TBin Mul n (TConst n y) t)
-  | Sv t, Sv u => if abs then Sv (TUF Fmul n t u) else Sv (TBin Mul n t u)
+  | Sv t, Sv u => match abs with Some f => Sv (TUF f n t u) | None => Sv (TBin Mul n t u) end
   end.
 
-Definition bv_div (n : Z) (abs : bool) (a b : bv) : bv :=
-  let slow := if abs then Sv (TUF Fudiv n (z3_of n a) (z3_of n b))
-              else Sv (TBin Udiv n (z3_of n a) (z3_of n b)) in
+Definition bv_div (n : Z) (abs : option uf) (a b : bv) : res bv :=
+  let slow := match abs with
+              | Some f => Sv (TUF f n (z3_of n a) (z3_of n b))
+              | None => Sv (TBin Udiv n (z3_of n a) (z3_of n b))
+              end in
   match b with
   | Cv y =>
-      if g_div_1 y then b
-      else if g_div_2 y then a
+      if g_div_1 y then Ok b
+      else if g_div_2 y then Ok a
       else match a with
-           | Cv x => mk_int n (x / y)
-           | Sv _ => if is_power_of_two y then bv_lshr n a (mk_int n (bit_length y - 1)) else slow
+           | Cv x => py_arith n (rd_div_1 x y) (r_div_1 x y)          (* lhs // rhs *)
+           | Sv _ => Ok (if is_power_of_two y then bv_lshr n a (mk_int n (bit_length y - 1)) else slow)
            end
-  | Sv _ => slow
+  | Sv _ => Ok slow
   end.
 
 (* abstraction=None reaches `other / self` on two HalmosBitVec objects: TypeError *)
-Definition bv_sdiv (n : Z) (abs : bool) (a b : bv) : res bv :=
-  let slow := if abs then Ok (Sv (TUF Fsdiv n (z3_of n a) (z3_of n b))) else Err ETypeError in
+Definition bv_sdiv (n : Z) (abs : option uf) (a b : bv) : res bv :=
+  let slow := match abs with
+              | Some f => Ok (Sv (TUF f n (z3_of n a) (z3_of n b)))
+              | None => Err ETypeError
+              end in
   match b with
   | Cv y =>
       if g_sdiv_1 y then Ok b
@@ -277,27 +290,31 @@ Definition bv_sdiv (n : Z) (abs : bool) (a b : bv) : res bv :=
   | Sv _ => slow
   end.
 
-Definition bv_mod (n : Z) (abs : bool) (a b : bv) : bv :=
-  let slow := if abs then Sv (TUF Furem n (z3_of n a) (z3_of n b))
-              else Sv (TBin Urem n (z3_of n a) (z3_of n b)) in
+Definition bv_mod (n : Z) (abs : option uf) (a b : bv) : res bv :=
+  let slow := match abs with
+              | Some f => Sv (TUF f n (z3_of n a) (z3_of n b))
+              | None => Sv (TBin Urem n (z3_of n a) (z3_of n b))
+              end in
   match b with
   | Cv y =>
-      if g_mod_1 y then b
-      else if g_mod_2 y then mk_int n 0
+      if g_mod_1 y then Ok b
+      else if g_mod_2 y then Ok (mk_int n 0)
       else match a with
-           | Cv x => mk_int n (x mod y)
+           | Cv x => py_arith n (rd_mod_1 x y) (r_mod_1 x y)          (* lhs % rhs *)
            | Sv t =>
-               if is_power_of_two y then
-                 let bitsize := bit_length y - 1 in
-                 Sv (TZext (n - bitsize) (TExtract (bitsize - 1) 0 t))
-               else slow
+               Ok (if is_power_of_two y then
+                     let bitsize := e_mod_bitsize (bit_length y) in
+                     Sv (TZext (n - bitsize) (TExtract (bitsize - 1) 0 t))
+                   else slow)
            end
-  | Sv _ => slow
+  | Sv _ => Ok slow
   end.
 
-Definition bv_smod (n : Z) (abs : bool) (a b : bv) : bv :=
-  let slow := if abs then Sv (TUF Fsrem n (z3_of n a) (z3_of n b))
-              else Sv (TBin Srem n (z3_of n a) (z3_of n b)) in
+Definition bv_smod (n : Z) (abs : option uf) (a b : bv) : bv :=
+  let slow := match abs with
+              | Some f => Sv (TUF f n (z3_of n a) (z3_of n b))
+              | None => Sv (TBin Srem n (z3_of n a) (z3_of n b))
+              end in
   match b with
   | Cv y =>
       if g_smod_1 y then b
@@ -310,20 +327,23 @@ Definition bv_smod (n : Z) (abs : bool) (a b : bv) : bv :=
   end.
 
 (* exp = self; for _ in range(rhs - 1): exp = self.mul(exp, abstraction=mul_abstraction) *)
-Fixpoint exp_loop (n : Z) (mabs : bool) (self acc : bv) (k : nat) : bv :=
+Fixpoint exp_loop (n : Z) (mabs : option uf) (self acc : bv) (k : nat) : bv :=
   match k with
   | O => acc
   | S k' => exp_loop n mabs self (bv_mul n mabs self acc) k'
   end.
 
-Definition bv_exp (n : Z) (eabs mabs : bool) (smt_exp_by_const : Z) (a b : bv) : res bv :=
-  let slow := if eabs then Ok (Sv (TUF Fexp n (z3_of n a) (z3_of n b))) else Err ENotImplemented in
+Definition bv_exp (n : Z) (eabs mabs : option uf) (smt_exp_by_const : Z) (a b : bv) : res bv :=
+  let slow := match eabs with
+              | Some f => Ok (Sv (TUF f n (z3_of n a) (z3_of n b)))
+              | None => Err ENotImplemented
+              end in
   match b with
   | Cv y =>
       if g_exp_1 y then Ok (mk_int n 1)
       else if g_exp_2 y then Ok a
       else match a with
-           | Cv x => Ok (mk_int n (x ^ y))        (* lhs**rhs, unreduced, then masked *)
+           | Cv x => py_arith n (rd_exp_1 x y n) (r_exp_1 x y n)     (* pow(lhs, rhs, 1 << size) *)
            | Sv _ => if g_exp_3 y smt_exp_by_const
                      then Ok (exp_loop n mabs a a (Z.to_nat (y - 1)))
                      else slow
@@ -331,36 +351,38 @@ Definition bv_exp (n : Z) (eabs mabs : bool) (smt_exp_by_const : Z) (a b : bv) :
   | Sv _ => slow
   end.
 
-(* size in bits (lower bound) of the integer CPython materialises for lhs**rhs on the
-   all-concrete path before it is masked; 0 on every other path *)
-Definition exp_work (a b : bv) : Z :=
+(* work of the all-concrete EXP path that is not answered by a guard: bits of the largest integer
+   CPython materialises while evaluating the (regenerated) return expression; 0 on every other
+   path *)
+Definition exp_work (n : Z) (a b : bv) : Z :=
   match a, b with
-  | Cv x, Cv y => if (y <=? 1) || (x <=? 1) then 0 else y * Z.log2 x
+  | Cv x, Cv y => if g_exp_1 y || g_exp_2 y then 0 else rw_exp_1 x y n
   | _, _ => 0
   end.
 
-Definition bv_addmod (n : Z) (abs : bool) (a b m : bv) : res bv :=
+Definition bind_bv (r : res bv) (f : bv -> bv) : res bv :=
+  match r with Ok x => Ok (f x) | Err e => Err e end.
+
+Definition bv_addmod (n : Z) (abs : option uf) (a b m : bv) : res bv :=
   match a, b, m with
   | Cv x, Cv y, Cv z =>
-      if z =? 0 then Err EZeroDivision              (* python: (x + y) % 0 *)
-      else Ok (mk_int n ((x + y) mod z))
+      if g_addmod_1 z then Ok (mk_int n 0)
+      else py_arith n (rd_addmod_1 z y x) (r_addmod_1 z y x)      (* (x + y) % z *)
   | _, _, _ =>
-      let n2 := n + 8 in
+      let n2 := e_addmod_newsize n in
       let r1 := bv_add n2 (bv_resize n n2 a) (bv_resize n n2 b) in
-      let r2 := bv_mod n2 abs r1 (bv_resize n n2 m) in
-      Ok (bv_resize n2 n r2)
+      bind_bv (bv_mod n2 abs r1 (bv_resize n n2 m)) (bv_resize n2 n)
   end.
 
-Definition bv_mulmod (n : Z) (mabs dabs : bool) (a b m : bv) : res bv :=
+Definition bv_mulmod (n : Z) (mabs dabs : option uf) (a b m : bv) : res bv :=
   match a, b, m with
   | Cv x, Cv y, Cv z =>
-      if z =? 0 then Err EZeroDivision              (* python: (x * y) % 0 *)
-      else Ok (mk_int n ((x * y) mod z))
+      if g_mulmod_1 z then Ok (mk_int n 0)
+      else py_arith n (rd_mulmod_1 z y x) (r_mulmod_1 z y x)      (* (x * y) % z *)
   | _, _, _ =>
-      let n2 := n * 2 in
+      let n2 := e_mulmod_newsize n in
       let r1 := bv_mul n2 mabs (bv_resize n n2 a) (bv_resize n n2 b) in
-      let r2 := bv_mod n2 dabs r1 (bv_resize n n2 m) in
-      Ok (bv_resize n2 n r2)
+      bind_bv (bv_mod n2 dabs r1 (bv_resize n n2 m)) (bv_resize n2 n)
   end.
 
 (* asserts size == 256; SignExt(256 - bl, Extract(bl - 1, 0, as_z3())), folded when concrete *)
@@ -375,7 +397,7 @@ Definition bv_signextend (a : bv) (size : Z) : bv :=
 
 Definition bv_not (n : Z) (a : bv) : bv :=
   match a with
-  | Cv x => mk_int n (Z.land (Z.lnot x) (Z.ones n))
+  | Cv x => mk_int n (r_bitwise_not_1 n x)         (* ~v & ((1 << size) - 1) *)
   | Sv t => Sv (TNot n t)
   end.
 Definition bv_bitop (o : binop) (f : Z -> Z -> Z) (n : Z) (a b : bv) : bv :=
@@ -383,9 +405,9 @@ Definition bv_bitop (o : binop) (f : Z -> Z -> Z) (n : Z) (a b : bv) : bv :=
   | Cv x, Cv y => mk_int n (f x y)
   | _, _ => Sv (TBin o n (z3_of n a) (z3_of n b))
   end.
-Definition bv_and := bv_bitop And Z.land.
-Definition bv_or := bv_bitop Or Z.lor.
-Definition bv_xor := bv_bitop Xor Z.lxor.
+Definition bv_and := bv_bitop And (fun x y => r_bitwise_and_1 y x).
+Definition bv_or := bv_bitop Or (fun x y => r_bitwise_or_1 y x).
+Definition bv_xor := bv_bitop Xor (fun x y => r_bitwise_xor_1 y x).
 
 Definition bv_cmp (o : cmpop) (f : Z -> Z -> bool) (n : Z) (a b : bv) : bl :=
   match a, b with
@@ -401,7 +423,7 @@ Definition bv_slt (n : Z) := bv_cmp Slt (fun x y => g_slt_1 (to_signed x n) (to_
 Definition bv_sgt (n : Z) := bv_cmp Sgt (fun x y => g_sgt_1 (to_signed x n) (to_signed y n)) n.
 Definition bv_eq (n : Z) (a b : bv) : bl :=
   match a, b with
-  | Cv x, Cv y => BC (x =? y)
+  | Cv x, Cv y => BC (g_eq_1 y x)
   | _, _ => BS (BEq (z3_of n a) (z3_of n b))
   end.
 
@@ -431,13 +453,6 @@ Definition popi (v : val) : bv := match v with VBV x => x | VBool b => bl_as_bv 
 (* BV(x, size=256) in bitwise() / the mixed EQ arm: the same coercion *)
 Definition to_bv256 (v : val) : bv := popi v.
 
-Definition bitwise (f : bl -> bl -> bl) (g : Z -> bv -> bv -> bv) (x y : val) : val :=
-  match x, y with
-  | VBool p, VBool q => VBool (f p q)
-  | VBV p, VBV q => VBV (g 256 p q)
-  | _, _ => VBV (g 256 (to_bv256 x) (to_bv256 y))
-  end.
-
 Inductive op :=
 | ADD | MUL | SUB | DIV | SDIV | MOD | SMOD | EXP | SIGNEXTEND
 | LT | GT | SLT | SGT | EQ | AND | OR | XOR | BYTE | SHL | SHR | SAR.
@@ -447,70 +462,294 @@ Inductive op3 := ADDMOD | MULMOD.
 Definition lift (x : bv) : res val := Ok (VBV x).
 Definition liftr (r : res bv) : res val := match r with Ok x => Ok (VBV x) | Err e => Err e end.
 
-(* a = top of the stack, b = the word below it; sebc = options.smt_exp_by_const *)
-Definition run2 (sebc : Z) (o : op) (a b : val) : res val :=
-  match o with
-  | ADD => lift (bv_add 256 (popi a) (popi b))
-  | SUB => lift (bv_sub 256 (popi a) (popi b))
-  | MUL => lift (bv_mul 256 true (popi a) (popi b))
-  | DIV => lift (bv_div 256 true (popi a) (popi b))
-  | MOD => lift (bv_mod 256 true (popi a) (popi b))
-  | SDIV => liftr (bv_sdiv 256 true (popi a) (popi b))
-  | SMOD => lift (bv_smod 256 true (popi a) (popi b))
-  | EXP => liftr (bv_exp 256 true true sebc (popi a) (popi b))
-  | SIGNEXTEND =>
-      match popi a with                         (* ex.int_of(state.popi(), ...) *)
-      | Cv size => lift (bv_signextend (popi b) size)
-      | Sv _ => Err ENotConcrete
+(* ---- interpreter of the regenerated arms (Gen/GenWordOps.v) *)
+(* a Python value held in a local of an arm: a stack word, or the int returned by ex.int_of *)
+Inductive pv := PV (v : val) | PI (z : Z).
+Record st := { stk : list val; loc : list pv; pth : list bterm }.
+
+(* state.pop() / popi() / top() / topi(): IndexError -> StackUnderflowError *)
+Definition acc_eval (a : acc) (s : list val) : res (val * list val) :=
+  match s with
+  | [] => Err EStackUnderflow
+  | v :: r =>
+      match a with
+      | APop => Ok (v, r)
+      | APopi => Ok (VBV (popi v), r)
+      | ATop => Ok (v, s)
+      | ATopi => Ok (VBV (popi v), s)
       end
-  | LT => Ok (VBool (bv_ult 256 (popi a) (popi b)))
-  | GT => Ok (VBool (bv_ugt 256 (popi a) (popi b)))
-  | SLT => Ok (VBool (bv_slt 256 (popi a) (popi b)))
-  | SGT => Ok (VBool (bv_sgt 256 (popi a) (popi b)))
-  | EQ =>
-      match a, b with
-      | VBool p, VBool q => Ok (VBool (bl_eq p q))
-      | VBV p, VBV q => Ok (VBool (bv_eq 256 p q))
-      | _, _ => Ok (VBool (bv_eq 256 (to_bv256 a) (to_bv256 b)))
-      end
-  | AND => Ok (bitwise bl_and bv_and a b)
-  | OR => Ok (bitwise bl_or bv_or a b)
-  | XOR => lift (bv_xor 256 (popi a) (popi b))
-  | BYTE =>
-      match popi a with
-      | Cv idx => lift (bv_byte 256 (popi b) idx 256)
-      | Sv it => lift (Sv (sym_byte_of it (z3_of 256 (popi b))))
-      end
-  | SHL => lift (bv_lshl 256 (popi b) (popi a))
-  | SHR => lift (bv_lshr 256 (popi b) (popi a))
-  | SAR => lift (bv_ashr 256 (popi b) (popi a))
   end.
 
-(* ISZERO / NOT act on state.top() WITHOUT coercion: a Bool-typed top takes the HalmosBool method *)
-Definition run1 (o : op1) (a : val) : res val :=
-  match o, a with
-  | ISZERO, VBV x => Ok (VBool (bv_is_zero 256 x))
-  | ISZERO, VBool p => Ok (VBool (bl_is_zero p))
-  | NOT, VBV x => Ok (VBV (bv_not 256 x))
-  | NOT, VBool p => Ok (VBool (bl_not p))
+Definition nth_kw (kw : list ufn) (i : nat) : option uf := option_map uf_of (nth_error kw i).
+
+(* <recv>.<m>(<args>, <kw>): Python dispatches on the dynamic type of the receiver: HalmosBitVec
+   or HalmosBool (which only has is_zero / bitwise_not / eq / bitwise_and / or / xor) *)
+Definition call_meth (sebc : Z) (m : meth) (kw : list ufn) (recv : pv) (args : list pv) : res val :=
+  match recv, args with
+  | PV (VBV x), [] =>
+      match m with
+      | Mbitwise_not => lift (bv_not 256 x)
+      | Mis_zero => Ok (VBool (bv_is_zero 256 x))
+      | _ => Err ETypeError
+      end
+  | PV (VBV x), [PV (VBV y)] =>
+      match m with
+      | Madd => lift (bv_add 256 x y)
+      | Msub => lift (bv_sub 256 x y)
+      | Mmul => lift (bv_mul 256 (nth_kw kw 0) x y)
+      | Mdiv => liftr (bv_div 256 (nth_kw kw 0) x y)
+      | Msdiv => liftr (bv_sdiv 256 (nth_kw kw 0) x y)
+      | Mmod => liftr (bv_mod 256 (nth_kw kw 0) x y)
+      | Msmod => lift (bv_smod 256 (nth_kw kw 0) x y)
+      | Mexp => liftr (bv_exp 256 (nth_kw kw 0) (nth_kw kw 1) sebc x y)
+      | Mlshl => lift (bv_lshl 256 x y)
+      | Mlshr => lift (bv_lshr 256 x y)
+      | Mashr => lift (bv_ashr 256 x y)
+      | Mbitwise_and => lift (bv_and 256 x y)
+      | Mbitwise_or => lift (bv_or 256 x y)
+      | Mbitwise_xor => lift (bv_xor 256 x y)
+      | Mult => Ok (VBool (bv_ult 256 x y))
+      | Mugt => Ok (VBool (bv_ugt 256 x y))
+      | Mslt => Ok (VBool (bv_slt 256 x y))
+      | Msgt => Ok (VBool (bv_sgt 256 x y))
+      | Meq => Ok (VBool (bv_eq 256 x y))
+      | Mbyte => match y with                      (* w.byte(idx.value, output_size=256) *)
+                 | Cv idx => lift (bv_byte 256 x idx 256)
+                 | Sv _ => Err ETypeError
+                 end
+      | _ => Err ETypeError
+      end
+  | PV (VBV _), [PV (VBool _)] => Err EAttribute      (* other._size / other.size: no such attribute *)
+  | PV (VBV x), [PI z] =>
+      match m with
+      | Msignextend => lift (bv_signextend x z)
+      | _ => Err ETypeError
+      end
+  | PV (VBV x), [PV (VBV y); PV (VBV z)] =>
+      match m with
+      | Maddmod => liftr (bv_addmod 256 (nth_kw kw 0) x y z)
+      | Mmulmod => liftr (bv_mulmod 256 (nth_kw kw 0) (nth_kw kw 1) x y z)
+      | _ => Err ETypeError
+      end
+  | PV (VBool p), [] =>
+      match m with
+      | Mbitwise_not => Ok (VBool (bl_not p))
+      | Mis_zero => Ok (VBool (bl_is_zero p))
+      | _ => Err EAttribute
+      end
+  | PV (VBool p), [PV (VBool q)] =>
+      match m with
+      | Meq => Ok (VBool (bl_eq p q))
+      | Mbitwise_and => Ok (VBool (bl_and p q))
+      | Mbitwise_or => Ok (VBool (bl_or p q))
+      | Mbitwise_xor => Ok (VBool (bl_xor p q))
+      | _ => Err EAttribute
+      end
+  | _, _ => Err ETypeError
   end.
 
-Definition run3 (o : op3) (a b c : val) : res val :=
-  match o with
-  | ADDMOD => liftr (bv_addmod 256 true (popi a) (popi b) (popi c))
-  | MULMOD => liftr (bv_mulmod 256 true true (popi a) (popi b) (popi c))
+(* module-level bitwise(op, x, y) *)
+Definition bitwise_meth (o : bitw) : meth :=
+  match o with BwAnd => bitwise_AND | BwOr => bitwise_OR | BwXor => bitwise_XOR end.
+Definition same_type (x y : val) : bool :=
+  match x, y with VBV _, VBV _ | VBool _, VBool _ => true | _, _ => false end.
+Definition bitwise (sebc : Z) (o : bitw) (x y : val) : res val :=
+  if same_type x y then call_meth sebc (bitwise_meth o) [] (PV x) [PV y]
+  else if bitwise_mismatch_coerces
+       then call_meth sebc (bitwise_meth o) [] (PV (VBV (to_bv256 x))) [PV (VBV (to_bv256 y))]
+       else Err ETypeError.
+
+(* SEVM.arith(ex, op, w1, w2) for the block selected by the arm's opcode (None: `raise ValueError(op)`) *)
+Definition arith (sebc : Z) (ae : option arith_entry) (w1 w2 : val) (path : list bterm) : res (val * list bterm) :=
+  match ae with
+  | None => Err EValue
+  | Some e =>
+      match call_meth sebc (ae_meth e) (ae_kw e) (PV w1) [PV w2] with
+      | Err x => Err x
+      | Ok r =>
+          match ae_axiom e, r with
+          | Some k, VBV (Sv t) =>                  (* if term.is_symbolic: ex.path.append(ULE(term, w<k>)) *)
+              match (match k with O => w1 | _ => w2 end) with
+              | VBV w => Ok (r, path ++ [BCmp Ule 256 t (z3_of 256 w)])
+              | VBool _ => Err ETypeError
+              end
+          | _, _ => Ok (r, path)
+          end
+      end
   end.
+
+Definition as_val (p : pv) : res val := match p with PV v => Ok v | PI _ => Err ETypeError end.
+
+Fixpoint eval_expr (sebc : Z) (ae : option arith_entry) (e : expr) (s : st) : res (pv * st) :=
+  let ev1 e s := match eval_expr sebc ae e s with
+                 | Ok (p, s') => match as_val p with Ok v => Ok (v, s') | Err x => Err x end
+                 | Err x => Err x
+                 end in
+  match e with
+  | EW i => match nth_error (loc s) i with Some p => Ok (p, s) | None => Err EValue end
+  | EAcc a => match acc_eval a (stk s) with
+              | Ok (v, r) => Ok (PV v, {| stk := r; loc := loc s; pth := pth s |})
+              | Err x => Err x
+              end
+  | EBV256 e1 => match ev1 e1 s with Ok (v, s1) => Ok (PV (VBV (to_bv256 v)), s1) | Err x => Err x end
+  | EIntOf e1 =>                                   (* ex.int_of(<word>, msg): NotConcreteError when symbolic *)
+      match ev1 e1 s with
+      | Ok (VBV (Cv z), s1) => Ok (PI z, s1)
+      | Ok (VBV (Sv _), _) => Err ENotConcrete
+      | Ok (VBool (BC b), s1) => Ok (PI (b2w b), s1)
+      | Ok (VBool (BS _), _) => Err ENotConcrete
+      | Err x => Err x
+      end
+  | ECall0 m kw r =>
+      match eval_expr sebc ae r s with
+      | Ok (pr, s1) => match call_meth sebc m kw pr [] with Ok v => Ok (PV v, s1) | Err x => Err x end
+      | Err x => Err x
+      end
+  | ECall1 m kw r a1 =>
+      match eval_expr sebc ae r s with
+      | Ok (pr, s1) =>
+          match eval_expr sebc ae a1 s1 with
+          | Ok (p1, s2) => match call_meth sebc m kw pr [p1] with Ok v => Ok (PV v, s2) | Err x => Err x end
+          | Err x => Err x
+          end
+      | Err x => Err x
+      end
+  | ECall2 m kw r a1 a2 =>
+      match eval_expr sebc ae r s with
+      | Ok (pr, s1) =>
+          match eval_expr sebc ae a1 s1 with
+          | Ok (p1, s2) =>
+              match eval_expr sebc ae a2 s2 with
+              | Ok (p2, s3) => match call_meth sebc m kw pr [p1; p2] with Ok v => Ok (PV v, s3) | Err x => Err x end
+              | Err x => Err x
+              end
+          | Err x => Err x
+          end
+      | Err x => Err x
+      end
+  | EBitwise o x y =>
+      match ev1 x s with
+      | Ok (vx, s1) =>
+          match ev1 y s1 with
+          | Ok (vy, s2) => match bitwise sebc o vx vy with Ok v => Ok (PV v, s2) | Err x => Err x end
+          | Err x => Err x
+          end
+      | Err x => Err x
+      end
+  | EArith x y =>
+      match ev1 x s with
+      | Ok (vx, s1) =>
+          match ev1 y s1 with
+          | Ok (vy, s2) =>
+              match arith sebc ae vx vy (pth s2) with
+              | Ok (v, path) => Ok (PV v, {| stk := stk s2; loc := loc s2; pth := path |})
+              | Err x => Err x
+              end
+          | Err x => Err x
+          end
+      | Err x => Err x
+      end
+  | ESymByte i w =>                                (* self.sym_byte_of(idx.value, w.as_z3()) *)
+      match ev1 i s with
+      | Ok (VBV (Sv it), s1) =>
+          match ev1 w s1 with
+          | Ok (VBV wv, s2) => Ok (PV (VBV (Sv (sym_byte_of it (z3_of 256 wv)))), s2)
+          | Ok (VBool _, _) => Err ETypeError
+          | Err x => Err x
+          end
+      | Ok (_, _) => Err ETypeError
+      | Err x => Err x
+      end
+  end.
+
+Definition push_val (p : pv) (s : st) : res st :=
+  match p with
+  | PV v => Ok {| stk := v :: stk s; loc := loc s; pth := pth s |}
+  | PI _ => Err ETypeError                         (* State.push asserts BV of size 256 or Bool *)
+  end.
+
+Definition exec_stmt (sebc : Z) (ae : option arith_entry) (c : stmt) (s : st) : res st :=
+  let push e s := match eval_expr sebc ae e s with Ok (p, s1) => push_val p s1 | Err x => Err x end in
+  match c with
+  | SBind e => match eval_expr sebc ae e s with
+               | Ok (p, s1) => Ok {| stk := stk s1; loc := loc s1 ++ [p]; pth := pth s1 |}
+               | Err x => Err x
+               end
+  | SSetTop e =>                                   (* the argument is evaluated first, then stack[-1] = v *)
+      match eval_expr sebc ae e s with
+      | Ok (PV v, s1) => match stk s1 with
+                         | _ :: r => Ok {| stk := v :: r; loc := loc s1; pth := pth s1 |}
+                         | [] => Err EStackUnderflow
+                         end
+      | Ok (PI _, _) => Err ETypeError
+      | Err x => Err x
+      end
+  | SPush e => push e s
+  | SMatchPush i j e1 e2 e3 =>
+      match nth_error (loc s) i, nth_error (loc s) j with
+      | Some (PV (VBool _)), Some (PV (VBool _)) => push e1 s
+      | Some (PV (VBV _)), Some (PV (VBV _)) => push e2 s
+      | Some _, Some _ => push e3 s
+      | _, _ => Err EValue
+      end
+  | SIfConcretePush i e1 e2 =>
+      match nth_error (loc s) i with
+      | Some (PV (VBV (Cv _))) => push e1 s
+      | Some (PV (VBV (Sv _))) =>                  (* state.push_any(x): BV(x, size=256) *)
+          match eval_expr sebc ae e2 s with
+          | Ok (PV v, s1) => push_val (PV (VBV (to_bv256 v))) s1
+          | Ok (PI _, _) => Err ETypeError
+          | Err x => Err x
+          end
+      | Some _ => Err ETypeError
+      | None => Err EValue
+      end
+  end.
+
+Fixpoint exec_arm (sebc : Z) (ae : option arith_entry) (cs : list stmt) (s : st) : res st :=
+  match cs with
+  | [] => Ok s
+  | c :: r => match exec_stmt sebc ae c s with Ok s1 => exec_arm sebc ae r s1 | Err x => Err x end
+  end.
+
+Definition arm2 (o : op) : list stmt :=
+  match o with
+  | ADD => arm_ADD | MUL => arm_MUL | SUB => arm_SUB | DIV => arm_DIV | SDIV => arm_SDIV
+  | MOD => arm_MOD | SMOD => arm_SMOD | EXP => arm_EXP | SIGNEXTEND => arm_SIGNEXTEND
+  | LT => arm_LT | GT => arm_GT | SLT => arm_SLT | SGT => arm_SGT | EQ => arm_EQ
+  | AND => arm_AND | OR => arm_OR | XOR => arm_XOR | BYTE => arm_BYTE
+  | SHL => arm_SHL | SHR => arm_SHR | SAR => arm_SAR
+  end.
+Definition arith_of (o : op) : option arith_entry :=
+  match o with
+  | ADD => Some arith_ADD | SUB => Some arith_SUB | MUL => Some arith_MUL | DIV => Some arith_DIV
+  | MOD => Some arith_MOD | SDIV => Some arith_SDIV | SMOD => Some arith_SMOD | EXP => Some arith_EXP
+  | _ => None
+  end.
+Definition arm1 (o : op1) : list stmt := match o with ISZERO => arm_ISZERO | NOT => arm_NOT end.
+Definition arm3 (o : op3) : list stmt := match o with ADDMOD => arm_ADDMOD | MULMOD => arm_MULMOD end.
+
+Definition st0 (s : list val) : st := {| stk := s; loc := []; pth := [] |}.
+
+(* one instruction on a stack whose top is a (then b, c), above an arbitrary rest: the stack and the
+   path constraints afterwards.  sebc = options.smt_exp_by_const *)
+Definition run2s (sebc : Z) (o : op) (a b : val) (rest : list val) : res st :=
+  exec_arm sebc (arith_of o) (arm2 o) (st0 (a :: b :: rest)).
+Definition run1s (o : op1) (a : val) (rest : list val) : res st :=
+  exec_arm 0 None (arm1 o) (st0 (a :: rest)).
+Definition run3s (o : op3) (a b c : val) (rest : list val) : res st :=
+  exec_arm 0 None (arm3 o) (st0 (a :: b :: c :: rest)).
+
+(* the word left on an otherwise empty stack (any other depth: EStackDepth) *)
+Definition only (r : res st) : res val :=
+  match r with
+  | Ok s => match stk s with [v] => Ok v | _ => Err EStackDepth end
+  | Err e => Err e
+  end.
+Definition run2 (sebc : Z) (o : op) (a b : val) : res val := only (run2s sebc o a b []).
+Definition run1 (o : op1) (a : val) : res val := only (run1s o a []).
+Definition run3 (o : op3) (a b c : val) : res val := only (run3s o a b c []).
 
 (* SEVM.arith: constraints appended to the path next to a symbolic DIV / MOD result *)
-Definition arith_axioms (o : op) (a b : val) : list bterm :=
-  match o with
-  | DIV => match bv_div 256 true (popi a) (popi b) with
-           | Sv t => [BCmp Ule 256 t (z3_of 256 (popi a))]
-           | Cv _ => []
-           end
-  | MOD => match bv_mod 256 true (popi a) (popi b) with
-           | Sv t => [BCmp Ule 256 t (z3_of 256 (popi b))]
-           | Cv _ => []
-           end
-  | _ => []
-  end.
+Definition arith_axioms (sebc : Z) (o : op) (a b : val) : list bterm :=
+  match run2s sebc o a b [] with Ok s => pth s | Err _ => [] end.
